@@ -99,15 +99,21 @@ theorem fmod_abs_lt (x m : Rat) (hm : 0 < m) : -m < CExtra.fmod x m ∧ CExtra.f
   · have := fmod_nonneg x m hm h; constructor <;> linarith
   · have := fmod_neg x m hm h; constructor <;> linarith
 
+theorem abs_of_nonneg' (x : Rat) (h : 0 ≤ x) : (CExtra.abs x : Rat) = x := by
+  show (if x < 0 then -x else x) = x
+  rw [if_neg (not_lt.mpr h)]
+
 /-- `deg_mod` as specified always lands in `[0, 360)` -/
 theorem degMod_spec_range (q : CQuirks) (hq : q.degModNegZero = false) (v : Rat) :
     0 ≤ degMod q v ∧ degMod q v < 360 := by
   unfold degMod
-  simp only [hq]
+  simp only [hq, Bool.false_eq_true, if_false]
   have h := fmod_abs_lt v 360 (by norm_num)
   by_cases hr : CExtra.fmod v (360 : Rat) < 0
-  · simp only [hr, decide_true, Bool.false_eq_true, if_false, if_true]; constructor <;> linarith
-  · simp only [hr, decide_false, Bool.false_eq_true, if_false]; constructor <;> linarith
+  · simp only [hr, if_true]; constructor <;> linarith
+  · simp only [hr, if_false]
+    rw [abs_of_nonneg' _ (not_lt.mp hr)]
+    constructor <;> linarith
 
 /-- `deg_mod` is the identity on `[0, 360)` (as specified) -/
 theorem fmod_id (x m : Rat) (hm : 0 < m) (h0 : 0 ≤ x) (h1 : x < m) : CExtra.fmod x m = x := by
@@ -129,7 +135,7 @@ theorem degMod_id (q : CQuirks) (v : Rat) (h0 : 0 ≤ v) (h1 : v < 360) : degMod
     simp; exact h0
   rw [e, hs]
   have : ¬ (v < 0) := not_lt.mpr h0
-  cases q.degModNegZero <;> simp [this]
+  cases q.degModNegZero <;> simp [this, abs_of_nonneg' v h0]
 
 /-- rounding keeps a channel inside `0..255` -/
 theorem round_range (x : Rat) (hi : Int) (h0 : 0 ≤ x) (h1 : x ≤ (hi : Rat)) :
